@@ -13,3 +13,45 @@ RULE = RULE + " | sched probe: every order of {aborted delivery completes, next 
 def groups(tier, rng):
     sc = [c for c in _C20.sched_cases(tier, rng) if not c.endswith("TAG=lifecycle")]
     return _g0(tier, rng) + [_Group("sched/delivery-orders", sc, project=_C20.project, theorems=THEOREMS)]
+
+
+# --- static: the reply table read off the source ---------------------------------------------------------------------------
+def static_facts():
+    """Every literal `writeResponse/protocolError/writeError(code, EnhancedCode{a, b, c} | NoEnhancedCode, …)` call in conn.go and
+    server.go: (1) the enhanced code's class is the reply code's class — NoEnhancedCode only on 220/250/334/354 (greeting, EHLO,
+    challenge, go-ahead): a call site that breaks this is a violation of C04 by itself, replay = file:line; (2) the SET of (code,
+    enhanced code) pairs equals the set the Lean model's handlers use — a pair on one side only means the model no longer describes
+    the code (correspondence).  Pairs of code paths the model does not contain are listed in UNMODELLED."""
+    import re, os
+    from vlib.core import REPO, ROOT
+    UNMODELLED = {(421, "4.4.0"): "server.go: a read error other than EOF/closed/timeout/too-long-line (not in the wire model's error alphabet)",
+                  (421, "4.4.5"): "Conn.Reject (exported helper no handler calls)"}
+    pat = re.compile(r"\.(writeResponse|protocolError|writeError)\((\d+), (EnhancedCode\{(\d+), (\d+), (\d+)\}|NoEnhancedCode|EnhancedCodeNotSet)")
+    go, findings, n = {}, [], 0
+    for fn in ("conn.go", "server.go"):
+        for i, line in enumerate(open(os.path.join(REPO, fn)), 1):
+            for m in pat.finditer(line):
+                n += 1
+                code = int(m.group(2))
+                enh = "none" if m.group(3) == "NoEnhancedCode" else "unset" if m.group(3) == "EnhancedCodeNotSet" else ".".join(m.group(k) for k in (4, 5, 6))
+                go.setdefault((code, enh), "%s:%d" % (fn, i))
+                bad = (enh == "none" and code not in (220, 250, 334, 354)) or (enh not in ("none", "unset") and int(m.group(4)) != code // 100) \
+                    or not (200 <= code <= 599)
+                if bad:
+                    findings.append(("viol", "%s:%d" % (fn, i), "C04 the enhanced status code of a reply written at %s:%d is not of the reply code's class "
+                                     "(or is missing where one is required):\n    %s" % (fn, i, line.strip())))
+    lean = open(os.path.join(ROOT, "lean", "SmtpV", "Model", "Server.lean")).read()
+    model = set()
+    for m in re.finditer(r"(?:reply|replyB|protocolError|protocolErrorB) \(?[^()\n]*?\)? ?(\d{3}) (⟨(\d+), (\d+), (\d+)⟩|noEnh)", lean):
+        model.add((int(m.group(1)), "none" if m.group(2) == "noEnh" else ".".join(m.group(k) for k in (3, 4, 5))))
+    for m in re.finditer(r"(?:\.refuse|renderError) (\d{3}) (⟨(\d+), (\d+), (\d+)⟩|noEnh)", lean):
+        model.add((int(m.group(1)), "none" if m.group(2) == "noEnh" else ".".join(m.group(k) for k in (3, 4, 5))))
+    only_go = sorted(k for k in go if k not in model and k not in UNMODELLED)
+    only_model = sorted(k for k in model if k not in go)
+    if only_go or only_model:
+        findings.append(("corr", "reply-table", "the set of (reply code, enhanced code) pairs written by conn.go/server.go differs from the set the Lean "
+                         "model's handlers use; the model no longer describes the code.\nonly in the code: %s\nonly in the model: %s\n"
+                         "Theorems whose tie to the code is lost: %s"
+                         % (", ".join("%d %s (%s)" % (k[0], k[1], go[k]) for k in only_go) or "-",
+                            ", ".join("%d %s" % k for k in only_model) or "-", ", ".join(THEOREMS))))
+    return n, findings
